@@ -256,6 +256,9 @@ def make_case(rng, family=None):
     if family == "L":
         spec, meta = F.family_L(rng, unit_root=bool(rng.random() < 0.2))
         steady = None
+        if "rw" not in meta["types"] and len(spec["teqs"]) % 2 == 0:
+            # `!!` steady versions without time shifts on the equations that hold the deepest lag / farthest lead
+            meta["flat_steady_versions"] = F.add_flat_steady_versions(spec)
     elif family == "N":
         spec, steady, meta = F.family_N(rng)
         if spec is None:
